@@ -135,4 +135,8 @@ DocOf(s) == s = "str-then-form"
 \* implicit return of the last body form: everything except asynchronous generators
 FnKinds == {"fn", "defn", "async-defn", "generator", "async-generator"}
 ReturnsLast(k) == k # "async-generator"
+\* where the yield of a generator may sit without changing what kind of function it is: anywhere in the
+\* function's own Python scope (let, if, for, with, try are not scopes), not in a nested function
+YieldPlaces == {"body", "let", "let-let", "if", "when", "for", "with", "try", "do", "setv-value"}
+IsGeneratorWithYieldAt(place) == place \in YieldPlaces
 =============================================================================
